@@ -311,7 +311,7 @@ def run_canaries(res, unit, repo, rlimit):
                         if o.get('kind') == 'inject' and o.get('clause') == '__canary_' + mode:
                             hit.add(o['fn'])
             for f in g.functions:
-                if f.get('no_canary'):
+                if f.get('no_canary') or (mode == 'exit' and f.get('no_exit_canary')):
                     continue
                 res.canary.setdefault(f['fn'], {})[mode] = f['fn'] in hit
     for fn, c in res.canary.items():
